@@ -82,6 +82,18 @@ def replay(pl):
             except Exception as ex:
                 return {'confirmed': True, 'detail': f'anchor_timeframe({lb}) raised {type(ex).__name__}'}
         return {'confirmed': False, 'detail': 'tables agree natively'}
+    if short in ('sum_floats', 'subtract_floats'):
+        # exactness: on decimals with up to 8 places and up to 1e6 the result is the double nearest to the exact decimal result
+        from decimal import Decimal
+        import jesse.utils as u
+        f = getattr(u, short)
+        for _ in range(20000):
+            a = round(rng.choice([0.1, 7.3, 651628.1755183, 99999.99999999, 0.00000123, 1234.56789012]) * rng.choice([1, 0.5, 3, 0.01]), 8)
+            b = round(rng.uniform(0, 10 ** rng.choice([-3, 0, 3, 6])), rng.choice([2, 6, 8]))
+            want = float(Decimal(str(a)) + Decimal(str(b))) if short == 'sum_floats' else float(Decimal(str(a)) - Decimal(str(b)))
+            got = f(a, b)
+            if got != want:
+                return {'confirmed': True, 'detail': f'{short}({a!r}, {b!r}) = {got!r} but the exact decimal result is {want!r}', 'inputs': [a, b]}
     qual = next((q for q in K.CONTRACTS if q.split('.')[-1] == short), None)
     if qual is None:
         return {'confirmed': False, 'detail': f'no native replay for {ob}'}
